@@ -39,6 +39,9 @@ CONSTANTS
     PrefixOf,             \* [prefix id -> set of keys that start with it]
     CacheSize,            \* capacity of the event cache ring
     SubCap,               \* capacity of a subscriber buffer
+    RingCap,              \* 0: one slot per revision (no wrap-around); n > 0: the write-result ring has n slots, revision r
+                          \*    uses slot r % n (backend.go:41 watchersChanCapacity = 100000; txn.go:290-294)
+    ClearInvalid,         \* TRUE (the code): the sequencer empties the slot of every event it consumes, valid or not
     SeqDetail,            \* TRUE: cache insert is a separate sequencer step
     TsoDetail,            \* TRUE (needs SeqDetail): tso.Commit is two steps: store the committed revision and load the
                           \*       deal revision; then compare-and-swap the deal revision (tso.go:58-70)
@@ -104,6 +107,13 @@ vars    == <<idx, ver, hver, floor, dealt, committed, slot, wpc, wloc, wops, wi,
 
 MaxRev == Base + OpsPer * Cardinality(Writers) * 2 + 4 + FaultBudget   \* every attempt and every repair gets one
 
+SlotIx(r) == IF RingCap = 0 THEN r ELSE r % RingCap
+\* the ring never overflows: fewer than RingCap revisions are dealt and not yet committed (notify panics otherwise)
+RingNeverFull == RingCap = 0 \/ dealt - committed < RingCap
+\* assumption of every configuration with a small ring: a revision is only dealt while the ring has room (the real ring
+\* has 100000 slots; a writer that finds it full panics, txn.go:290-293)
+RingRoom == RingCap = 0 \/ dealt - committed < RingCap - 1
+
 -----------------------------------------------------------------------------
 \* Initial history of one key
 InitKey(s) ==
@@ -135,7 +145,7 @@ Init ==
           /\ hver = [k \in Keys |-> InitKey(ks[k]).ver]
     /\ floor = 0
     /\ dealt = Base /\ committed = Base
-    /\ slot = [r \in (Base+1)..MaxRev |-> NoEv]
+    /\ slot = [r \in (IF RingCap = 0 THEN (Base+1)..MaxRev ELSE 0..(RingCap - 1)) |-> NoEv]
     /\ IF FixedOps = << >> THEN wops \in [Writers -> [1..OpsPer -> OpSet]]
                          ELSE wops = [w \in Writers |-> FixedOps]
     /\ wpc = [w \in Writers |-> "idle"]
@@ -212,7 +222,7 @@ ResOf(a) == CASE a = "ok" -> "ok" [] a = "err" -> "err" [] OTHER -> "unk"
 \* WRITERS
 
 \* generator bias: lazy watchers subscribe before the first write starts
-SeqIdle0 == seqpc = "poll" /\ batch = << >> /\ (committed + 1 \in DOMAIN slot => slot[committed + 1] = NoEv)
+SeqIdle0 == seqpc = "poll" /\ batch = << >> /\ (SlotIx(committed + 1) \in DOMAIN slot => slot[SlotIx(committed + 1)] = NoEv)
 CanStart == /\ \A x \in LazyWatchers : xpc[x] # "start"
             /\ (EagerSeq => (SeqIdle0 /\ chan = << >>))
 IsCreateLike(o) == o.type = "create" \/ (o.type = "update" /\ o.exp = 0)
@@ -226,7 +236,7 @@ Begin(w, loc) ==
 \* create / update with expectation 0: allocate                          gate: deal
 CreateDeal(w) ==
     /\ wpc[w] = "idle" /\ wi[w] <= OpsPer /\ IsCreateLike(Op(w)) /\ CanStart
-    /\ dealt' = dealt + 1
+    /\ RingRoom /\ dealt' = dealt + 1
     /\ wloc' = [wloc EXCEPT ![w] = [Begin(w, WLocInit) EXCEPT !.rev = dealt + 1, !.engDone = FALSE]]
     /\ wpc' = [wpc EXCEPT ![w] = "c_pine"]
     /\ H(w, "CreateDeal", "deal")
@@ -316,7 +326,7 @@ CreateReGet(w) ==
 \* update with expectation > 0: allocate; refuse expectations from the future   gate: deal
 UpdateDeal(w) ==
     /\ wpc[w] = "idle" /\ wi[w] <= OpsPer /\ Op(w).type = "update" /\ Op(w).exp > 0 /\ CanStart
-    /\ dealt' = dealt + 1
+    /\ RingRoom /\ dealt' = dealt + 1
     /\ LET l0 == [Begin(w, WLocInit) EXCEPT !.rev = dealt + 1] IN
        IF dealt + 1 < Op(w).exp
        THEN /\ wloc' = [wloc EXCEPT ![w] = [l0 EXCEPT !.res = "drift"]]
@@ -349,7 +359,7 @@ DeleteGet(w) ==
 \* delete: allocate, local checks                                           gate: deal
 DeleteDeal(w) ==
     /\ wpc[w] = "d_deal"
-    /\ dealt' = dealt + 1
+    /\ RingRoom /\ dealt' = dealt + 1
     /\ LET r == dealt + 1  e == Op(w).exp  m == wloc[w].mod IN
        IF wloc[w].res = "notfound"
        THEN /\ wloc' = [wloc EXCEPT ![w].rev = r] /\ wpc' = [wpc EXCEPT ![w] = "notify"]
@@ -393,7 +403,7 @@ Return(w, hdr, kvrev, kvval) ==
 \* fill the slot; return unless a failed condition needs the newest version   gate: notify
 Notify(w) ==
     /\ wpc[w] = "notify"
-    /\ slot' = [slot EXCEPT ![wloc[w].rev] = EventOf(w)]
+    /\ slot' = [slot EXCEPT ![SlotIx(wloc[w].rev)] = EventOf(w)]
     /\ IF wloc[w].res = "cas" /\ Op(w).type # "create"
        THEN /\ wpc' = [wpc EXCEPT ![w] = "reget"]
             /\ UNCHANGED <<acked, maxRet, wi>>
@@ -430,10 +440,11 @@ WatchEv(e) == [type |-> e.verb, key |-> e.key, rev |-> e.rev, val |-> e.val,
 \* consume slot committed+1                                                gate: seq.poll
 SeqPoll ==
     /\ seqpc = "poll"
-    /\ committed + 1 \in DOMAIN slot
-    /\ slot[committed + 1] # NoEv
-    /\ LET e == slot[committed + 1] IN
-       /\ slot' = [slot EXCEPT ![e.rev] = NoEv]
+    /\ SlotIx(committed + 1) \in DOMAIN slot
+    /\ slot[SlotIx(committed + 1)] # NoEv
+    \* (the code takes whatever event it finds in that slot for the next one: it does not look at its revision)
+    /\ LET e == slot[SlotIx(committed + 1)] IN
+       /\ slot' = IF e.valid \/ ClearInvalid THEN [slot EXCEPT ![SlotIx(e.rev)] = NoEv] ELSE slot
        /\ committed' = e.rev
        /\ tsopre' = IF TsoDetail THEN dealt ELSE tsopre
        /\ IF ~e.valid
@@ -474,7 +485,7 @@ SeqCacheAdd ==
 \* next slot empty and something pending: hand the batch to the hub          gate: seq.poll
 SeqFlush ==
     /\ seqpc = "poll" /\ batch # << >>
-    /\ (committed + 1 \in DOMAIN slot => slot[committed + 1] = NoEv)
+    /\ (SlotIx(committed + 1) \in DOMAIN slot => slot[SlotIx(committed + 1)] = NoEv)
     /\ chan' = Append(chan, batch)
     /\ batch' = << >>
     /\ H("seq", "SeqFlush", "seq.poll")
@@ -499,7 +510,7 @@ RetryGet ==
 
 RetryDeal ==
     /\ rpc = "deal"
-    /\ dealt' = dealt + 1
+    /\ RingRoom /\ dealt' = dealt + 1
     /\ rloc' = [rloc EXCEPT !.rev = dealt + 1]
     /\ rpc' = "commit"
     /\ H("retry", "RetryDeal", "retry.deal")
@@ -530,7 +541,7 @@ RetryCommit ==
 RetryNotify ==
     /\ rpc = "notify"
     /\ LET e == rloc.ev IN
-       slot' = [slot EXCEPT ![rloc.rev] =
+       slot' = [slot EXCEPT ![SlotIx(rloc.rev)] =
                   [e EXCEPT !.rev = rloc.rev, !.valid = rloc.val = "ok", !.unc = rloc.val = "unk"]]
     \* unless the rewrite succeeded or lost its compare, the operation is still unresolved: it stays queued
     \* (an uncertain rewrite is queued as well, under its own revision, by the sequencer)
@@ -563,7 +574,7 @@ HubDeliver ==
 \* WATCHERS  (backend.Watch / processEvents)
 
 WritersDone == \A w \in Writers : wpc[w] = "idle" /\ wi[w] > OpsPer
-SeqIdle == seqpc = "poll" /\ batch = << >> /\ (committed + 1 \in DOMAIN slot => slot[committed + 1] = NoEv)
+SeqIdle == seqpc = "poll" /\ batch = << >> /\ (SlotIx(committed + 1) \in DOMAIN slot => slot[SlotIx(committed + 1)] = NoEv)
 
 InPrefix(p, k) == k \in PrefixOf[p]
 FilterPrefix(evs, p) == SelectSeq(evs, LAMBDA e : InPrefix(p, e.key))
